@@ -230,6 +230,51 @@ def p_neverclose(h, d):
     return body()
 
 
+def p_neverclose2(h, d):
+    """two keyed runs left open for the engine to close."""
+    def body():
+        for k in ("A", "B"):
+            yield Msg("open_run", run=k, key=k)
+            yield Msg("checkpoint")
+            yield Msg("create", name="primary", run=k)
+            yield Msg("read", d["kdet0" if k == "A" else "kdet1"], run=k)
+            yield Msg("save", run=k)
+        yield Msg("sleep", None, 0.05)
+        P(h, "body-complete")
+
+    return body()
+
+
+def p_park(h, d):
+    """a run, and a cleanup plan that records a run of its own (another key) while the plan unwinds."""
+    det, m1 = d["det"], d["m1"]
+
+    def body():
+        yield Msg("open_run", run="scan", key="scan")
+        for k in range(2):
+            yield Msg("checkpoint")
+            yield Msg("set", m1, float(k), group="g")
+            yield Msg("wait", None, group="g")
+            yield Msg("create", name="primary", run="scan")
+            yield Msg("read", det, run="scan")
+            yield Msg("save", run="scan")
+        yield Msg("close_run", run="scan")
+        P(h, "body-complete")
+
+    def cleanup():
+        P(h, "cleanup-start")
+        yield Msg("open_run", run="park", key="park")
+        yield Msg("set", m1, -1.0, group="home")
+        yield Msg("wait", None, group="home")
+        yield Msg("create", name="primary", run="park")
+        yield Msg("read", d["kdet0"], run="park")
+        yield Msg("save", run="park")
+        yield Msg("close_run", run="park")
+        P(h, "cleanup-end")
+
+    return bpp.finalize_wrapper(body(), cleanup)
+
+
 def p_norun(h, d):
     m1 = d["m1"]
 
@@ -681,6 +726,8 @@ CORPUS = {
     "mon_closeleft": p_mon_closeleft,
     "responses": p_responses,
     "neverclose": p_neverclose,
+    "neverclose2": p_neverclose2,
+    "park": p_park,
     "norun": p_norun,
     "nested": p_nested,
     "fly": p_fly,
